@@ -97,6 +97,10 @@ func c06IDs(c *Ctx) {
 	// suite ids
 	if f := p.PkgFunc(rel, "hpkeSuiteID"); f == nil {
 		r.AnchorMissing("C06.ids", "hpke.hpkeSuiteID")
+	} else if len(f.Params) == 3 && layoutCheck(c, "C06.ids", "C06.ids/hpkeSuiteID", f, 0,
+		cat([]byte("HPKE"), []byte{0x11, 0x22, 0x33, 0x44, 0x55, 0x66}), "\"HPKE\" || be16(kem) || be16(kdf) || be16(aead)",
+		consteval.C(0x1122), consteval.C(0x3344), consteval.C(0x5566)) {
+		// decided by value
 	} else {
 		// order of AppendUint16 calls: kem, kdf, aead
 		var order []int
@@ -153,7 +157,10 @@ func c06IDs(c *Ctx) {
 		})
 		r.Check(good && hasLabel, "C06.ids", "C06.ids/hpkeSuiteID", p.FuncPos(f), "suite id is not \"HPKE\" || be16(kem) || be16(kdf) || be16(aead) in this order", "\"HPKE\" then kem, kdf, aead as big-endian uint16")
 	}
-	if f := p.PkgFunc(rel, "kemSuiteID"); f != nil {
+	if f := p.PkgFunc(rel, "kemSuiteID"); f != nil && len(f.Params) == 1 && layoutCheck(c, "C06.ids", "C06.ids/kemSuiteID", f, 0,
+		cat([]byte("KEM"), []byte{0x11, 0x22}), "\"KEM\" || be16(kem)", consteval.C(0x1122)) {
+		// decided by value
+	} else if f != nil {
 		ok := false
 		allInstrs(f, func(ins ssa.Instruction) {
 			if call, isC := ins.(*ssa.Call); isC && strings.HasSuffix(guard.CalleeName(&call.Call), "bigEndian).AppendUint16") {
@@ -171,6 +178,28 @@ func c06IDs(c *Ctx) {
 			}
 		})
 		r.Check(ok && hasLabel, "C06.ids", "C06.ids/kemSuiteID", p.FuncPos(f), "KEM suite id is not \"KEM\" || be16(kem)", "\"KEM\" || be16(kem)")
+	}
+	// the labelled inputs of RFC 9180 §4 and the key schedule context of §5.1, by value
+	suite := []byte("HPKE\x00\x10\x00\x01\x00\x01")
+	ikm := []byte{0xa1, 0xa2, 0xa3}
+	if f := p.PkgFunc(rel, "labelIKM"); f != nil && len(f.Params) == 3 {
+		if !layoutCheck(c, "C06.ids", "C06.ids/labelIKM", f, 0, cat([]byte("HPKE-v1"), suite, []byte("secret"), ikm),
+			"LabeledExtract input \"HPKE-v1\" || suite_id || label || ikm", consteval.S("secret"), consteval.BytesVal(ikm), consteval.BytesVal(suite)) {
+			r.Outside("C06.ids", "C06.ids/labelIKM", p.FuncPos(f), "labelIKM does not fold on constant arguments; not decided by value")
+		}
+	}
+	if f := p.PkgFunc(rel, "labelInfo"); f != nil && len(f.Params) == 4 {
+		if !layoutCheck(c, "C06.ids", "C06.ids/labelInfo", f, 0, cat([]byte{0x01, 0x02}, []byte("HPKE-v1"), suite, []byte("key"), ikm),
+			"LabeledExpand info be16(L) || \"HPKE-v1\" || suite_id || label || info", consteval.S("key"), consteval.BytesVal(ikm), consteval.BytesVal(suite), consteval.C(0x0102)) {
+			r.Outside("C06.ids", "C06.ids/labelInfo", p.FuncPos(f), "labelInfo does not fold on constant arguments; not decided by value")
+		}
+	}
+	if f := p.PkgFunc(rel, "keyScheduleContext"); f != nil && len(f.Params) == 3 {
+		a, b := []byte{0xb1, 0xb2, 0xb3, 0xb4}, []byte{0xc1, 0xc2}
+		if !layoutCheck(c, "C06.ids", "C06.ids/keyScheduleContext", f, 0, cat([]byte{0x00}, a, b),
+			"key_schedule_context mode || psk_id_hash || info_hash", consteval.C(0), consteval.BytesVal(a), consteval.BytesVal(b)) {
+			r.Outside("C06.ids", "C06.ids/keyScheduleContext", p.FuncPos(f), "keyScheduleContext does not fold on constant arguments; not decided by value")
+		}
 	}
 	r.Min("C06.ids", 20)
 }
